@@ -58,8 +58,56 @@ theorem C15_refused_iff (sysctl fsuid linkUid dirMode dirUid : Nat) :
   · rintro ⟨⟨⟨h0, h1⟩, h2⟩, h3⟩; exact ⟨h0, h1, h3, h2⟩
   · rintro ⟨h0, h1, h3, h2⟩; exact ⟨⟨⟨h0, h1⟩, h2⟩, h3⟩
 
+/-- no privileged bypass: like the kernel (which consults no capability here) the
+emulation refuses a caller with fsuid 0 exactly as it refuses anybody else —
+root following somebody's link in a sticky world-writable directory is the very
+case the sysctl exists for -/
+theorem C15_root_not_exempt (sysctl linkUid dirMode dirUid : Nat) (hs : sysctl ≠ 0)
+    (hl : linkUid ≠ 0) (hd : linkUid ≠ dirUid)
+    (hm : dirMode &&& (S_ISVTX ||| S_IWOTH) = (S_ISVTX ||| S_IWOTH)) :
+    Opath.mayFollowDecision sysctl 0 linkUid dirMode dirUid = false :=
+  (C15_refused_iff sysctl 0 linkUid dirMode dirUid).mpr ⟨hs, hl, hd, hm⟩
+
+/-- of the directory's mode only the sticky and the other-write bit matter:
+two modes that agree on these two bits get the same decision (so neither the
+file-type bits returned by `fstat` nor the remaining permission bits can change it) -/
+theorem C15_only_sticky_and_other_write (sysctl fsuid linkUid dirUid m1 m2 : Nat)
+    (h : m1 &&& (S_ISVTX ||| S_IWOTH) = m2 &&& (S_ISVTX ||| S_IWOTH)) :
+    Opath.mayFollowDecision sysctl fsuid linkUid m1 dirUid
+      = Opath.mayFollowDecision sysctl fsuid linkUid m2 dirUid := by
+  unfold Opath.mayFollowDecision Opath.STICKY_WRITABLE
+  rw [h]
+
+/-- the sysctl is a switch: every non-zero value acts like 1 (the kernel's own
+`sysctl_protected_symlinks` is tested for truth, never compared) -/
+theorem C15_sysctl_is_boolean (sysctl fsuid linkUid dirMode dirUid : Nat) (hs : sysctl ≠ 0) :
+    Opath.mayFollowDecision sysctl fsuid linkUid dirMode dirUid
+      = Opath.mayFollowDecision 1 fsuid linkUid dirMode dirUid := by
+  unfold Opath.mayFollowDecision
+  simp [hs]
+
+/-- the owner of the link can always follow it, wherever it lies -/
+theorem C15_owner_follows (sysctl fsuid dirMode dirUid : Nat) :
+    Opath.mayFollowDecision sysctl fsuid fsuid dirMode dirUid = true := by
+  simp [Opath.mayFollowDecision]
+
+/-- the program: `may_follow_link` succeeds exactly when the decision on the values
+the three calls return is `true`, and otherwise fails with EACCES — whatever the
+environment answers -/
+theorem C15_program_shape (env : Env) (dir link : Fd) :
+    Opath.mayFollowLink env dir link =
+      M.bind' (Sys.geteuid : Prog Nat) fun fsuid =>
+      M.bind' (Sys.fstatat dir []) fun dirMeta =>
+      M.bind' (Sys.fstatat link []) fun linkMeta =>
+      if Opath.mayFollowDecision env.protectedSymlinks fsuid linkMeta.uid dirMeta.mode dirMeta.uid
+      then pure () else throw (.os EACCES) := rfl
+
 /-! ## Non-vacuity: both outcomes occur -/
 
 example : Opath.mayFollowDecision 1 1000 2000 0o1777 0 = false := by decide
 example : Opath.mayFollowDecision 1 1000 2000 0o0777 0 = true := by decide
 example : Opath.mayFollowDecision 1 1000 2000 0o1777 2000 = true := by decide
+example : Opath.mayFollowDecision 1 0 2000 0o41777 1000 = false :=
+  C15_root_not_exempt 1 2000 0o41777 1000 (by decide) (by decide) (by decide) (by decide)
+example : Opath.mayFollowDecision 7 0 2000 0o41777 1000 = false := by
+  rw [C15_sysctl_is_boolean 7 _ _ _ _ (by decide)]; decide
